@@ -327,6 +327,12 @@ def zero_test_obligations(env, run, A_list, regime):
                 env.lemma(f'rs_opened[{j}]@{pid}', (rs_vals[pid] - R * S) % p == 0)
         for pid in range(m):
             env.lemma(f'masked_opened[{j}]@{pid}', (c_vals[pid] - A * R) % p == 0)
+        # small steps (each becomes an assumption for the next once discharged): keeps the final obligation linear
+        if regime != 'large':
+            env.lemma(f'mask_nonzero[{j}]', (R % p) != 0)
+        for pid in range(m):
+            env.lemma(f'opened_zero_iff_product_zero[{j}]@{pid}', (c_vals[pid] == 0) == ((A * R) % p == 0))
+            env.lemma(f'opened_zero_iff_input_zero[{j}]@{pid}', (c_vals[pid] == 0) == ((A % p) == 0))
 
 
 def log_calls(party, *names):
